@@ -20,6 +20,10 @@ func main() {
 		props.C13Worker(spec)
 		return
 	}
+	if os.Getenv("VERIF_C20_IDWORKER") != "" {
+		props.C20IDWorker()
+		return
+	}
 	id, tier := os.Args[1], os.Args[2]
 	replay := ""
 	for i := 3; i < len(os.Args); i++ {
